@@ -88,9 +88,12 @@ func TestC18(t *testing.T) {
 			continue
 		}
 		for _, g := range o.Shares {
-			if !serverGroups[g] {
-				r.Count("shares_without_inrepo_server", 1) // X25519Kyber768Draft00: no in-repo server implements it
+			if !serverGroups[g] && g != 0x6399 {
+				r.Count("shares_without_server", 1)
 				continue
+			}
+			if g == 0x6399 {
+				r.Count("kyber_draft00_shares_exercised_via_hooked_server", 1) // no stock server implements it: hook H7
 			}
 			jobs = append(jobs, job{tg, g})
 		}
@@ -98,8 +101,13 @@ func TestC18(t *testing.T) {
 	parallel(len(jobs), func(i int) {
 		j := jobs[i]
 		scfg := peer.ServerConfig()
-		scfg.CurvePreferences = []tls.CurveID{tls.CurveID(j.g)}
-		h := RunCase(j.t, GridCase{Server: scfg}, "example.test", nil, peer.Opts{})
+		gc := GridCase{Server: scfg}
+		if j.g == 0x6399 {
+			gc.Plan = &tls.VerifPlan{ForceGroup: tls.X25519Kyber768Draft00}
+		} else {
+			scfg.CurvePreferences = []tls.CurveID{tls.CurveID(j.g)}
+		}
+		h := RunCase(j.t, gc, "example.test", nil, peer.Opts{})
 		outcome := "ok"
 		for _, hm := range wire.ClientHellos(h.C2S) {
 			if ch, err := wire.ParseClientHello(hm); err == nil {
@@ -150,5 +158,5 @@ func TestC18(t *testing.T) {
 	r.Floor("key_shares_observed", 1000)
 	r.Floor("shares_exercised", 60)
 	r.Floor("quic_hellos", 50)
-	r.Assume("X25519Kyber768Draft00 shares are size/freshness-checked only: no in-repo server implements that group")
+	r.Assume("X25519Kyber768Draft00 has no stock server: its server side is the verif hook H7 (ML-KEM-768 encapsulation + Kyber round-3 KDF written independently of the client's code)")
 }
